@@ -622,3 +622,87 @@ def ob_method_by_name_and_expr(site: int) -> bool:
 
 OBLIGATIONS.append(Ob('method_by_name_then_expr', ob_method_by_name_and_expr, ['0 <= site <= 2'], timeout=tier(100, 300), data='-',
                       selectors='counter method of a client object / with object / in item referenced by name twice, then called from an expression'))
+
+
+# ---------------------------------------------------------------- wave 5: names inside EXPRESSIONS follow the same rules, at every rendering
+from crosshair.tracers import NoTracing      # noqa: E402
+
+SRC_EXPR_NAMES = ('<dtml-var "_.has_key(\'x\') and x or \'none\'">|<dtml-if "flag and x">T<dtml-else>F</dtml-if>|'
+                  '<dtml-in seq><dtml-var "_.has_key(\'x\') and x or \'none\'">,</dtml-in>|<dtml-let y="_.has_key(\'x\') and x or 0"><dtml-var y></dtml-let>')
+
+
+class XO:
+    pass
+
+
+def ob_expr_names_history(s1: int, s2: int, s3: int) -> bool:
+    """three renderings of ONE template object; in each, the name x used inside expressions is undefined / a call keyword / in the call
+    mapping / an attribute of the client / an attribute of the loop items: every rendering resolves it by the documented precedence,
+    whatever earlier renderings found (or did not find)"""
+    srcs = [0 if s <= 0 else 1 if s == 1 else 2 if s == 2 else 3 if s == 3 else 4 for s in (s1, s2, s3)]
+    with NoTracing():
+        t = HTML(SRC_EXPR_NAMES)
+        for n, src in enumerate(srcs):
+            val = 'v%d' % n
+            client, mapping, kw = None, {}, {}
+            item = XO()
+            if src == 1:
+                kw['x'] = val
+            elif src == 2:
+                mapping['x'] = val
+            elif src == 3:
+                client = XO()
+                client.x = val
+            elif src == 4:
+                item.x = val
+            out = t(client, mapping, flag=1 if src in (1, 2, 3) else 0, seq=[item, XO()], **kw)
+            top = val if src in (1, 2, 3) else 'none'
+            in1 = val if src in (1, 2, 3, 4) else 'none'
+            in2 = top
+            exp = '%s|%s|%s,%s,|%s' % (top, 'T' if src in (1, 2, 3) else 'F', in1, in2, top if top != 'none' else '0')
+            if out != exp:
+                return False
+        return True
+
+
+OBLIGATIONS.append(Ob('expression_names_history', ob_expr_names_history, ['0 <= s1 <= 4', '0 <= s2 <= 4', '0 <= s3 <= 4'], timeout=tier(150, 400), path_timeout=60, data='-',
+                      selectors='three renderings of one template; per rendering the name x (used only inside expressions: var, if, in body, let) comes from nowhere / keyword / mapping / client / loop item',
+                      stubs='runs untraced once the sources are fixed on the path'))
+
+T_ABN = cooked('<dtml-let x=ox><dtml-try><dtml-try>a<dtml-var b1><dtml-except><dtml-let x=ix>h<dtml-var b2></dtml-let><dtml-else><dtml-with w mapping>e<dtml-var b3></dtml-with></dtml-try>'
+               '<dtml-except>H[<dtml-var x>|<dtml-var error_type>]</dtml-try>[<dtml-var x>|<dtml-var error_type missing=U>|<dtml-var q missing=U>]</dtml-let>[<dtml-var x missing=U>]')
+T_ABN_SUB = HTML('<dtml-try><dtml-var b1><dtml-except><dtml-if ret><dtml-return rv></dtml-if><dtml-var b2></dtml-try>s', x='subdefault', q='subq')
+T_ABN_SUB.cook()
+T_ABN_CALLER = cooked('<dtml-let x=ox><dtml-try><dtml-var sub><dtml-except>H</dtml-try>[<dtml-var x>|<dtml-var error_type missing=U>|<dtml-var q missing=U>]</dtml-let>[<dtml-var x missing=U>]')
+
+
+class Boom2(Exception):
+    pass
+
+
+def ob_abnormal_exit_scoping(r1: bool, r2: bool, r3: bool, ret: bool) -> bool:
+    """bindings made by let / with / except sections / a sub-template's defaults end with their block ALSO when the block is left by an
+    exception or by dtml-return: afterwards x, error_type and q resolve as before"""
+    def mk(flag):
+        def f():
+            if flag:
+                raise Boom2('b')
+            return ''
+        return f
+    out = T_ABN(ox='outer', ix='inner', w={'x': 'wx', 'q': 'wq'}, b1=mk(r1), b2=mk(r2), b3=mk(r3))
+    if r1:
+        body = 'H[outer|Boom2]' if r2 else 'h'
+    else:
+        body = 'H[outer|Boom2]' if r3 else 'ae'
+    if out != body + '[outer|U|U][U]':
+        return False
+    out2 = T_ABN_CALLER(ox='outer', sub=T_ABN_SUB, b1=mk(r1), b2=mk(r2), ret=ret, rv='RV')
+    if r1:
+        sub = 'RV' if ret else ('H' if r2 else 's')
+    else:
+        sub = 's'
+    return out2 == sub + '[outer|U|U][U]'
+
+
+OBLIGATIONS.append(Ob('abnormal_exit_scoping', ob_abnormal_exit_scoping, [], timeout=tier(100, 300), data='which of three stubs raise; whether the sub-template returns from inside its handler',
+                      selectors='let / with / except sections / sub-template defaults left by exceptions raised inside handlers, else sections and by dtml-return; names observed afterwards'))
